@@ -428,6 +428,9 @@ fn check_constraint_selector(ctx: &mut Ctx, f: &FnInfo, consts: &dyn Fn(&str) ->
     enum Shape {
         Range(Option<Option<i128>>, Option<Option<i128>>, bool), // None = absent, Some(None) = non-integer value
         Strict(Option<i128>, bool),
+        /// written with set operators (`1..5 | 10`): neither a range nor a single value; what is known of it is the hull of its
+        /// PER-visible parts, as per_visible_range_constraints computes it
+        Set(Option<i128>, Option<i128>, bool),
         Neither,
     }
     let cur: RefCell<Shape> = RefCell::new(Shape::Neither);
@@ -453,6 +456,17 @@ fn check_constraint_selector(ctx: &mut Ctx, f: &FnInfo, consts: &dyn Fn(&str) ->
                 }
                 _ => err,
             })),
+            "per_visible_range_constraints" => Some(Ok(match &*cur.borrow() {
+                Shape::Set(lo, hi, ext) => {
+                    let o = |b: &Option<i128>| b.map(|i| Val::some(Val::input(i))).unwrap_or(Val::none());
+                    Val::Ctor("Ok".into(), vec![Val::Ctor("PVRC".into(), vec![], [("min".to_string(), o(lo)), ("max".to_string(), o(hi)), ("extensible".to_string(), Val::Bool(*ext))].into_iter().collect())], BTreeMap::new())
+                }
+                _ => Val::Ctor("Ok".into(), vec![Val::Ctor("PVRC".into(), vec![], [("min".to_string(), Val::none()), ("max".to_string(), Val::none()), ("extensible".to_string(), Val::Bool(false))].into_iter().collect())], BTreeMap::new()),
+            })),
+            ".min" | ".max" | ".is_extensible" if matches!(_args.first(), Some(Val::Ctor(n, _, _)) if n == "PVRC") => match _args.first() {
+                Some(Val::Ctor(_, _, f)) => f.get(if name == ".is_extensible" { "extensible" } else { &name[1..] }).cloned().map(Ok),
+                _ => None,
+            },
             _ => None,
         }
     };
@@ -472,6 +486,22 @@ fn check_constraint_selector(ctx: &mut Ctx, f: &FnInfo, consts: &dyn Fn(&str) ->
             scenarios.push(Shape::Strict(v, ext));
         }
     }
+    // set-operator constraints: the component's type is chosen from the PER-visible hull (Rasn::int_type_token on
+    // per_visible_range_constraints), so the type of the assignment / value / DEFAULT must come from the same bounds
+    let mut setb: Vec<Option<i128>> = vec![None];
+    setb.extend(rp.iter().map(|x| Some(*x)));
+    for lo in &setb {
+        for hi in &setb {
+            if let (Some(a), Some(b)) = (lo, hi) {
+                if a > b {
+                    continue;
+                }
+            }
+            for ext in [false, true] {
+                scenarios.push(Shape::Set(*lo, *hi, ext));
+            }
+        }
+    }
     let mut results: BTreeMap<String, usize> = BTreeMap::new();
     let n = scenarios.len();
     for sc in scenarios {
@@ -485,6 +515,7 @@ fn check_constraint_selector(ctx: &mut Ctx, f: &FnInfo, consts: &dyn Fn(&str) ->
                     Shape::Neither => (None, None, false, false),
                     Shape::Range(lo, hi, ext) => (lo.clone().flatten(), hi.clone().flatten(), *ext, matches!(lo, Some(Some(_))) && matches!(hi, Some(Some(_)))),
                     Shape::Strict(v, ext) => (*v, *v, *ext, v.is_some()),
+                    Shape::Set(lo, hi, ext) => (*lo, *hi, *ext, lo.is_some() && hi.is_some()),
                 };
                 judge(ctx, f, &format!("{:?}", sc).chars().take(60).collect::<String>(), &v, lo, hi, ext, integral);
             }
@@ -725,14 +756,27 @@ pub fn agree(m: &Model, ctx: &mut Ctx, rule: &str) {
     let typed: Vec<String> = f1.sig.inputs.iter().filter_map(|a| match a { syn::FnArg::Typed(t) => Some(tok(&t.pat)), _ => None }).collect();
     let ev1 = Evaluator { consts: &consts, call_hook: &bound_default_hook, inline: None };
     let cur: RefCell<(Option<i128>, Option<i128>, bool)> = RefCell::new((None, None, false));
-    let hook = |_: &Evaluator, name: &str, _a: &[Val]| -> Option<Result<Val, String>> {
+    // as_set: the constraint is written with set operators (`lo..x | y..hi`): it is neither a range nor a single value, and
+    // the component's type is chosen from the hull per_visible_range_constraints computes for it
+    let as_set: RefCell<bool> = RefCell::new(false);
+    let hook = |_: &Evaluator, name: &str, a: &[Val]| -> Option<Result<Val, String>> {
         let mk = |b: Option<i128>| b.map(|i| Val::some(Val::Ctor("Integer".into(), vec![Val::input(i)], BTreeMap::new()))).unwrap_or(Val::none());
+        let err = || Val::Ctor("Err".into(), vec![Val::Sym("e".into())], BTreeMap::new());
         match name {
             ".unpack_as_value_range" => {
                 let (lo, hi, ext) = *cur.borrow();
-                Some(Ok(Val::Ctor("Ok".into(), vec![Val::Tuple(vec![mk(lo), mk(hi), Val::Bool(ext)])], BTreeMap::new())))
+                Some(Ok(if *as_set.borrow() { err() } else { Val::Ctor("Ok".into(), vec![Val::Tuple(vec![mk(lo), mk(hi), Val::Bool(ext)])], BTreeMap::new()) }))
             }
-            ".unpack_as_strict_value" => Some(Ok(Val::Ctor("Err".into(), vec![Val::Sym("e".into())], BTreeMap::new()))),
+            ".unpack_as_strict_value" => Some(Ok(err())),
+            "per_visible_range_constraints" => {
+                let (lo, hi, ext) = *cur.borrow();
+                let o = |b: Option<i128>| b.map(|i| Val::some(Val::input(i))).unwrap_or(Val::none());
+                Some(Ok(Val::Ctor("Ok".into(), vec![Val::Ctor("PVRC".into(), vec![], [("min".to_string(), o(lo)), ("max".to_string(), o(hi)), ("extensible".to_string(), Val::Bool(ext))].into_iter().collect())], BTreeMap::new())))
+            }
+            ".min" | ".max" | ".is_extensible" if matches!(a.first(), Some(Val::Ctor(n, _, _)) if n == "PVRC") => match a.first() {
+                Some(Val::Ctor(_, _, f)) => f.get(if name == ".is_extensible" { "extensible" } else { &name[1..] }).cloned().map(Ok),
+                _ => None,
+            },
             _ => None,
         }
     };
@@ -748,8 +792,9 @@ pub fn agree(m: &Model, ctx: &mut Ctx, rule: &str) {
                     continue;
                 }
             }
-            for ext in [false, true] {
+            for (ext, set) in [(false, false), (true, false), (false, true), (true, true)] {
                 n += 1;
+                *as_set.borrow_mut() = set;
                 let mut e1 = Env::new();
                 e1.insert(typed[0].clone(), lo.map(|x| Val::some(Val::input(x))).unwrap_or(Val::none()));
                 e1.insert(typed[1].clone(), hi.map(|x| Val::some(Val::input(x))).unwrap_or(Val::none()));
@@ -763,11 +808,11 @@ pub fn agree(m: &Model, ctx: &mut Ctx, rule: &str) {
                     (Ok(a), Ok(b)) => {
                         let (a, b) = (canon(&result_name(&a)), canon(&result_name(&b)));
                         if a != b {
-                            let key = format!("{}-vs-{}", a, b);
+                            let key = format!("{}{}-vs-{}", if set { "set-operators:" } else { "" }, a, b);
                             if reported.insert(key.clone()) {
                                 let show = |x: &Option<i128>| x.map(|v| v.to_string()).unwrap_or("absent".into());
                                 ctx.violate(rule, &format!("selectors-disagree:{}", key), &f1.file, f1.line,
-                                    &format!("for INTEGER ({}..{}{}) {} chooses `{}` but {} chooses `{}`: a component of the first type gets a DEFAULT function / value of the second", show(lo), show(hi), if ext { ", ..." } else { "" }, f1.name, a, f2.name, b));
+                                    &format!("for INTEGER ({}{}) {} chooses `{}` but {} chooses `{}`: a component of the first type gets a DEFAULT function / value of the second", if set { format!("{}..x | y..{}", show(lo), show(hi)) } else { format!("{}..{}", show(lo), show(hi)) }, if ext { ", ..." } else { "" }, f1.name, a, f2.name, b));
                             }
                         }
                     }
